@@ -2,7 +2,34 @@
 decimal comparison) in TLA+; TLC checks the language theorems on every enumerated (tree, tag map) and dumps the
 table; the Go harness replays every row into the real internal/filter Validate / Match / Hash.
 
-Mutation testing (FRAMEWORK rule 3), see the end of this docstring (filled in after the runs).
+Expected on the unchanged tree (6de10927): VIOLATION -- `in` / `nin` evaluate a missing key as the value ""
+(Match({k in [""]}, {}) = true, Match({k nin [""]}, {}) = false; signatures match:in:absent-key, match:nin:absent-key and
+match:<op>:depth<N>:via:match:(in|nin):absent-key). Green with the two-line fix (`ok &&` / `!ok ||`), DESIGN 10 item 4.
+
+Mutation testing (FRAMEWORK rule 3): scratch worktree of /repo HEAD with the fix above applied (baseline exit 0), one
+mutation of internal/filter/filter.go at a time, `VERIF_REPO=<wt> ./check C15` (quick tier); first signatures shown.
+  M1  gte evaluated as gt (`v.Cmp(cmp) > 0`)                         caught  match:gte:numerals
+  M2  sw / ew swapped (HasPrefix <-> HasSuffix)                      caught  match:sw:present-key, match:ew:present-key
+  M3  `not` not negating when its child is a logical node            caught  match:not:depth2
+  M4  numeric ops fall back to string comparison on a parse error    caught  match:gt:non-numeral (and lt, gte, lte)
+  M5  Validate accepts an empty `in`/`nin` list                      caught  validate:in:accepts-malformed, validate:nin:...
+  M6  Hash over the whole pooled buffer (`bb.B[:cap]`, stale bytes)  caught  hash:unstable:*, hash:unequal:*
+      (only reliably since the harness dirties the pooled buffer between two Hash calls; before that: GC luck)
+  M7  `and` ignores its third child                                  caught  match:and:depth1 (class D)
+  M8  numeric ops through strconv.ParseFloat (accepts 1e3, .5, Inf)  caught  match:gt:non-numeral ...
+  M9  Validate accepts `not` with two children                       caught  validate:not:accepts-malformed
+  M10 nex treats an empty value as a missing key                     caught  match:nex:present-key
+  M11 ct through strings.ContainsAny                                 caught  match:ct:present-key
+  M12 `or` returns the value of its first child                      caught  match:or:depth1, match:*:depth2
+  M13 Validate does not descend into the children of `or`            caught  validate:or:accepts-malformed
+  M15 lt / lte swapped                                               caught  match:lt:numerals, match:lte:numerals
+  M16 neq false on a missing key (`ok && val != f.Val`)              caught  match:neq:absent-key
+  M17 gt compares InexactFloat64 of exactly parsed numerals          caught  match:gt:numerals (10^20 vs 10^20+1 rows)
+  M18 Hash depends on slice capacity / nil-vs-empty of Vals          caught  hash:unequal:*
+  M14 Hash ignores the Val field                                     MISSED BY DESIGN: C15 only asks for equal hashes of
+      structurally equal trees; the run reports "remark: 550 trees share their hash with a structurally different tree".
+  (dropping `ok &&` from eq/sw/ew/ct is an equivalent mutant on validated trees: Validate forces a non-empty operand and
+   the zero value "" never equals / starts with / contains a non-empty string -- which is why only in/nin are wrong.)
 """
 import os
 
@@ -10,7 +37,7 @@ from lib import vf
 
 # A child list containing a nil element ({"op":"and","nodes":[null]} in JSON) makes filter.Validate panic instead
 # of rejecting. The property quantifies over filter TREES, so this is only recorded as a note unless switched on.
-NIL_CHILD_IS_VIOLATION = False
+NIL_CHILD_IS_VIOLATION = os.environ.get('VERIF_C15_NIL_CHILD', '1') == '1'
 
 
 def _s(chars):
@@ -69,7 +96,7 @@ def c15(c):
                       'ex/nex with an empty key are taken as well-formed (the code says so, the language definition is silent)',
                       'fields that do not belong to a node kind (children of a leaf, key/cmp/val of a logical node) are not enumerated: '
                       'the language definition does not say whether they make a tree malformed (the code ignores them)',
-                      'bounded: depth <= 2, <= 2 children, value sets as in spec/Filter/%s' % cfg]
+                      'bounded: depth <= 2, <= 3 children, value sets as in spec/Filter/%s' % cfg]
 
 
 CHECKS = {'C15': c15}
@@ -77,6 +104,6 @@ CHECKS = {'C15': c15}
 META = {'C15': dict(
     level='model_checking',
     text='Filter.tla defines the filter language independently of the code (a missing key equals no value and is in no set; numeric comparison = exact decimal comparison of numerals of the grammar accepted by the engine, false otherwise; and/or/not; well-formedness; definedness of Match on well-formed trees). TLC checks the language theorems (absent key, duals, trichotomy, connective laws, Validate => Match total, cross-check of the digit-string comparison against scaled integers) on every enumerated (tree, tag map) and the enumerated table is replayed row by row into the real filter.Validate, filter.Match and filter.Hash (two differently built structurally equal copies of every tree). Exhaustive within the bounds.',
-    note='Bounds: depth <= 2, <= 2 children per node, 13+2 comparison strings, 3+1 logical operators, 13 (quick) / 20 (thorough) tag values, ~50 / ~80 numeric edge numerals incl. u64/u128/big.Int sized and 19/20 fractional digits. Trusted: TLC, lib/tlaparse.py, the harness comparison code, the reading of the udecimal grammar. Hash inequality of different trees is not checked (not required).',
+    note='Bounds: depth <= 2, <= 2 children per node (3 in class D and, thorough, in class B), 13+2 comparison strings, 3+1 logical operators, 13 (quick) / 20 (thorough) tag values, ~50 / ~80 numeric edge numerals incl. u64/u128/big.Int sized and 19/20 fractional digits. Trusted: TLC, lib/tlaparse.py, the harness comparison code, the reading of the udecimal grammar. Hash inequality of different trees is not checked (not required).',
     technique='TLA+ reference definition + TLC exhaustive enumeration; function-table replay into the Go functions',
     design_ref='DESIGN.md 4.4, 8 (C15), 10 item 4')}
